@@ -472,7 +472,7 @@ func runSymtab(c *vk.Ctx) {
 	bases := []uint64{0, 0x555555554000}
 	lo, hi := uint64(0xff8), uint64(0x1024)
 	c.Note(fmt.Sprintf("symbol tables: all address-sorted tables of 0..%d symbols over addresses %x x sizes %x x nm types %v (equal addresses in every order), parsed from nm text with base in %x; lookups at every 4-byte step in [%#x, %#x] plus the bytes next to each symbol start and end", n, addrs, sizes, types, bases, lo, hi))
-	EachTable(n, addrs, sizes, types, func(idx int64, t []Sym) bool {
+	table := func(idx int64, t []Sym) bool {
 		if !c.Mine(idx) {
 			return true
 		}
@@ -543,7 +543,16 @@ func runSymtab(c *vk.Ctx) {
 			c.Nontrivial("t" + fmt.Sprint(idx))
 		}
 		return true
-	})
+	}
+	last := EachTable(n, addrs, sizes, types, table)
+	// every type letter nm prints, in the first and in a middle position of a table with gaps after it:
+	// the documented data letters (bss, data, read-only, weak) answer only within their size
+	for _, letter := range strings.Split("A B b C c D d G g I i N n p R r S s T t U u V v W w ? -", " ") {
+		last++
+		table(last, []Sym{{Name: "s0", Type: letter, Addr: 0x1000, Size: 4}, {Name: "s1", Type: "T", Addr: 0x1010, Size: 8}})
+		last++
+		table(last, []Sym{{Name: "s0", Type: "T", Addr: 0x1000, Size: 4}, {Name: "s1", Type: letter, Addr: 0x1008, Size: 4}, {Name: "s2", Type: "t", Addr: 0x1018, Size: 8}})
+	}
 	if c.Counter("symtab/found") == 0 || c.Counter("symtab/nil.outside-data-symbol") == 0 {
 		c.Vacuous("symbol lookup never found a symbol or never rejected an address outside a data symbol")
 	}
